@@ -155,7 +155,9 @@ def r2_nodeps_filter(chk):
     loop, popped, pop_node = discovery(r)
     for rs in sorted(req_sets):
         if rs == vararg:
-            chk.ob('C10.R2', 'compile/requested-set(%s)' % rs, False, where(r.mod, mloop),
+            # the raw names alone are not enough (a module requested through a differently named file); next to the
+            # canonical-name set they are a further protection (a requested module found inside another file)
+            chk.ob('C10.R2', 'compile/requested-set(%s)' % rs, len(req_sets) > 1, where(r.mod, mloop),
                    'canonical module names are compared with the raw requested names; a module requested through '
                    'a differently named file is excluded')
             continue
@@ -501,4 +503,22 @@ def t1_typestate(chk):
     compile_ts.ts_rule(chk, 'C10.T1', ['fresh', 'nodeps'])
 
 
-RULES = [r1_searcher_protocol, r2_nodeps_filter, r3_file_searchers, r4_stub, r5_package_delegation, r6_argument_agreement, r7_guard_polarity, r8_wellformedness, t1_typestate]
+
+def r9_source_time_in_whole_seconds(chk):
+    """the searchers compare whole seconds (os.stat(f)[8], the pyc header): the source time handed to them must be
+    taken the same way - shared with C14.R1"""
+    from rules.C14 import r1_file_reader
+    common.reuse(chk, r1_file_reader, ('C14.R1',), 'C10.R9',
+                 'FileReader.getData reports mtime = os.stat(f)[8] (whole seconds), the same reading the file searchers '
+                 'use for the transformed file (C10.R3): a float source time with a sub-second part makes an equally '
+                 'new destination look stale',
+                 keep=lambda o: o.key.split('/')[-1] in ('mtime-index', 'same-path-stat-and-open'))
+
+
+
+def r10_every_searcher_is_asked(chk):
+    from rules.C08 import r7_every_component_is_asked
+    r7_every_component_is_asked(chk, rule='C10.R10', meths=('fileExists',))
+
+
+RULES = [r1_searcher_protocol, r2_nodeps_filter, r3_file_searchers, r4_stub, r5_package_delegation, r6_argument_agreement, r7_guard_polarity, r8_wellformedness, t1_typestate, r9_source_time_in_whole_seconds, r10_every_searcher_is_asked]
